@@ -147,7 +147,9 @@ def subst_params(t, mapping):
         return (h, subst_params(t[1], mapping))
     if h in ("field", "variant"):
         inner = subst_params(t[1], mapping)
-        return P.mk_field(inner, t[2]) if h == "field" else P.mk_variant(inner, t[2])
+        if h == "field":
+            return P.mk_field(inner, t[2])
+        return P.mk_variant(inner, t[2], "core::option::Option" if len(t) == 4 else None)
     if h == "call":
         return (h, t[1], t[2], tuple(subst_params(a, mapping) for a in t[3]))
     if h == "agg":
